@@ -6,6 +6,7 @@ import (
 	"crypto/cipher"
 	"fmt"
 	"sync"
+	"sync/atomic"
 	"unsafe"
 
 	"github.com/bilibili/smgo/zzverif/hk"
@@ -46,6 +47,8 @@ func withAsm(on bool, f func()) {
 // newAEAD builds an AEAD the way callers do (through crypto/cipher); the two
 // families the standard library exposes are (any nonce size, tag 16) and
 // (nonce 12, tag 12..16).
+var aeadFamilyCounter uint32
+
 func newAEAD(key []byte, nonceSize, tagSize int) (cipher.AEAD, error) {
 	blk, err := NewCipher(key)
 	if err != nil {
@@ -53,6 +56,13 @@ func newAEAD(key []byte, nonceSize, tagSize int) (cipher.AEAD, error) {
 	}
 	switch {
 	case nonceSize == 12 && tagSize == 16:
+		// the default shape is reachable through all three constructors; rotate through them
+		switch atomic.AddUint32(&aeadFamilyCounter, 1) % 3 {
+		case 1:
+			return cipher.NewGCMWithNonceSize(blk, 12)
+		case 2:
+			return cipher.NewGCMWithTagSize(blk, 16)
+		}
 		return cipher.NewGCM(blk)
 	case tagSize == 16:
 		return cipher.NewGCMWithNonceSize(blk, nonceSize)
